@@ -220,6 +220,20 @@ class PathEnum:
             kw = getattr(getattr(getattr(func, 'node', None), 'args', None), 'kwarg', None)
             if kw is not None and kw.arg == e.func.value.id and fr.fid == 0:
                 return e.args[1].value
+        if getattr(self, 'default_kwargs', False) and fr.fid == 0:
+            func = getattr(fr, 'func', None)
+            kw = getattr(getattr(getattr(func, 'node', None), 'args', None), 'kwarg', None)
+            if kw is not None:
+                # default-call mode: no keyword option was passed, so `'opt' in kwargs` is False and .get('opt') is None
+                if isinstance(e, ast.Compare) and len(e.ops) == 1 and isinstance(e.ops[0], (ast.In, ast.NotIn)) and isinstance(e.left, ast.Constant) \
+                        and isinstance(e.comparators[0], ast.Name) and e.comparators[0].id == kw.arg and (fr.fid, kw.arg) not in p.env:
+                    return isinstance(e.ops[0], ast.NotIn)
+                if isinstance(e, ast.Call) and isinstance(e.func, ast.Attribute) and e.func.attr in ('get', 'pop') and isinstance(e.func.value, ast.Name) \
+                        and e.func.value.id == kw.arg and len(e.args) == 1 and isinstance(e.args[0], ast.Constant) and e.func.attr == 'get':
+                    return None
+                if isinstance(e, ast.Call) and isinstance(e.func, ast.Attribute) and e.func.attr == 'pop' and isinstance(e.func.value, ast.Name) \
+                        and e.func.value.id == kw.arg and len(e.args) == 2 and all(isinstance(a, ast.Constant) for a in e.args):
+                    return e.args[1].value
         if isinstance(e, ast.Call) and isinstance(e.func, ast.Name) and e.func.id == 'isinstance' and len(e.args) == 2 \
                 and isinstance(e.args[0], ast.Name) and e.args[0].id == 'self' and isinstance(e.args[1], ast.Name):
             # the receiver's concrete class is the one the enumeration was started for
@@ -525,11 +539,29 @@ class PathEnum:
         the function, or a class attribute (self.X / Cls.X); None for anything else"""
         func = getattr(fr, 'func', None)
         node = it
+        if isinstance(it, ast.Call) and isinstance(it.func, ast.Name) and it.func.id == 'zip' and len(it.args) == 2 and not it.keywords:
+            # zip(CONSTANT_TABLE, seq): iteration i binds (table[i], seq[i]); the table decides how many iterations there are
+            # only when seq is at least as long, which holds for the unpack results / parallel tables this is used with
+            a = self._const_table(it.args[0], fr)
+            b = self._const_table(it.args[1], fr)
+            if a is not None and b is not None and len(a) == len(b):
+                return [ast.Tuple(elts=[x, y], ctx=ast.Load()) for x, y in zip(a, b)]
+            if a is not None and isinstance(it.args[1], (ast.Name, ast.Attribute)):
+                return [ast.Tuple(elts=[x, ast.Subscript(value=it.args[1], slice=ast.Constant(value=i), ctx=ast.Load())], ctx=ast.Load()) for i, x in enumerate(a)]
+            return None
+        if isinstance(it, ast.Call) and isinstance(it.func, ast.Name) and it.func.id == 'enumerate' and len(it.args) == 1 and not it.keywords:
+            a = self._const_table(it.args[0], fr)
+            return None if a is None else [ast.Tuple(elts=[ast.Constant(value=i), x], ctx=ast.Load()) for i, x in enumerate(a)]
         if isinstance(it, ast.Name) and func is not None and hasattr(func, 'node'):
             defs = [n.value for n in ast.walk(func.node) if isinstance(n, ast.Assign) and any(isinstance(t, ast.Name) and t.id == it.id for t in n.targets)]
             others = [n for n in ast.walk(func.node) if isinstance(n, (ast.AugAssign, ast.For)) and any(
                 isinstance(x, ast.Name) and x.id == it.id for x in ast.walk(getattr(n, 'target', n)))]
             node = defs[0] if len(defs) == 1 and not others else None
+            if not defs and not others and it.id not in getattr(func, 'params', []) and hasattr(func, 'mod'):
+                # a module-level table (bound once at module level, never rebound in this function)
+                r = self.idx.lookup(func.mod, it.id)
+                if r and r[0] == 'const' and isinstance(r[1], (ast.Tuple, ast.List)):
+                    node = r[1]
         elif isinstance(it, ast.Attribute) and isinstance(it.value, ast.Name) and getattr(fr, 'cls', None) is not None \
                 and it.value.id in ('self', 'cls', fr.cls.name):
             k, v = self.idx.find_attr(fr.cls, it.attr)
@@ -595,6 +627,16 @@ class PathEnum:
         if isinstance(s, ast.Expr):
             if isinstance(s.value, ast.Constant):
                 return [p]
+            v = s.value
+            if isinstance(v, ast.Call) and isinstance(v.func, ast.Name) and v.func.id == 'setattr' and len(v.args) == 3 and not v.keywords:
+                # setattr(obj, 'name', value) with a name that is a constant on this path is the assignment obj.name = value
+                an = self.const_of(v.args[1], p, fr)
+                if isinstance(an, str) and an.isidentifier():
+                    a = ast.Assign(targets=[ast.Attribute(value=v.args[0], attr=an, ctx=ast.Store())], value=v.args[2])
+                    ast.copy_location(a, s)
+                    ast.fix_missing_locations(a)
+                    a._parent = getattr(s, '_parent', None)
+                    return self.stmt(a, p, fr)
             return [q for q, _, _ in self.value_paths(s.value, p, fr)]
         if isinstance(s, (ast.Assign, ast.AnnAssign)):
             if isinstance(s, ast.AnnAssign):
@@ -608,6 +650,12 @@ class PathEnum:
                 if q.exit is not None:
                     outs.append(q)
                     continue
+                if isinstance(s.value, ast.Call) and rfr is not fr and ret is not None and ret is not _UNKNOWN:
+                    # `flag = self.predicate()` with the predicate inlined: what it returned on this path is a fact about the path,
+                    # exactly as if the call had been written in the condition that later tests the flag
+                    tv = self.const_of(ret, q, rfr)
+                    if isinstance(tv, bool):
+                        q.ev.append(Ev('truth', s.value, fr, tv))
                 for t in targets:
                     if isinstance(t, ast.Name):
                         self._assign_name(t.id, ret, rfr, q, fr)
